@@ -137,7 +137,7 @@ type RequestedAuthnContext struct {
 
 func (sp *SAMLServiceProvider) Metadata() (*types.EntityDescriptor, error) {
 	keyDescriptors := make([]types.KeyDescriptor, 0, 2)
-	if sp.GetSigningKey() != nil {
+	if sp.GetSigningKey() != nil || sp.spSigningKeyStoreOverride != nil || sp.spKeyStoreOverride != nil {
 		signingCertBytes, err := sp.GetSigningCertBytes()
 		if err != nil {
 			return nil, err
